@@ -365,6 +365,30 @@ func c02Scenario(g c01Gen, dotu bool) Scenario {
 				// once per packet kind
 				if !countSweepDone[base[4]] {
 					countSweepDone[base[4]] = true
+					// ... and counts that agree with what follows (well-formed messages with 0..600,
+					// and a few thousand, elements - more than a walk may carry), and bodies one
+					// byte short / long of that
+					for _, v := range append(seqInts(0, 600), 1000, 4096, 5000, 5041) {
+						t := append([]byte{}, base[:cntOff+2]...)
+						binary.LittleEndian.PutUint16(t[cntOff:], uint16(v))
+						for i := 0; i < v; i++ {
+							if base[4] == wire.Rwalk {
+								t = append(t, byte(i), 1, 0, 0, 0, byte(i), byte(i>>8), 0, 0, 0, 0, 0, 0)
+							} else {
+								t = append(t, 1, 0, byte('a'+i%26))
+							}
+						}
+						for _, d := range []int{0, -1, 1} {
+							u := append([]byte{}, t...)
+							if d == 1 {
+								u = append(u, 0)
+							} else if d == -1 && len(u) > cntOff+2 {
+								u = u[:len(u)-1]
+							}
+							binary.LittleEndian.PutUint32(u, uint32(len(u)))
+							try(u)
+						}
+					}
 					for n := 0; n <= 30; n++ {
 						t := append([]byte{}, base[:cntOff+2]...)
 						for i := 0; i < n; i++ {
@@ -530,7 +554,15 @@ func c02Scenarios(tier string) []Scenario {
 func init() {
 	register(&Property{ID: "C02", Level: "exploration",
 		Technique: "bounded-exhaustive enumeration of packet mutations (truncations, declared sizes, byte substitutions, length-field overwrites, all tiny frames)",
-		Rule:      "for up to 5 canonical packets per type and dialect: every truncation (with and without adjusted size field), every declared size 0..len+8 and extremes, every byte value at every offset (packets <= 96 bytes; boundary values otherwise), 11 u16 and 11 u32 values written at every offset, all 65536 values of the Twalk / Rwalk element counts; every frame of header + <=3 body bytes over {00,01,02,7f,ff} for all 256 type bytes; stat records likewise; each input decoded twice with different bytes after the declared size. distinct = distinct byte strings",
+		Rule:      "for up to 5 canonical packets per type and dialect: every truncation (with and without adjusted size field), every declared size 0..len+8 and extremes, every byte value at every offset (packets <= 96 bytes; boundary values otherwise), 11 u16 and 11 u32 values written at every offset, all 65536 values of the Twalk / Rwalk element counts, well-formed walks of 0..600 (and 1000..5041) elements and bodies one byte short / long of them; every frame of header + <=3 body bytes over {00,01,02,7f,ff} for all 256 type bytes; stat records likewise; each input decoded twice with different bytes after the declared size. distinct = distinct byte strings",
 		Assumptions: []string{"allocation is measured with runtime/metrics and confirmed with runtime.MemStats when above 8 KiB + 16*len(input)"},
 		Scenarios:   c02Scenarios, QuickS: 100, ThoroughS: 900})
+}
+
+func seqInts(lo, hi int) []int {
+	var l []int
+	for i := lo; i <= hi; i++ {
+		l = append(l, i)
+	}
+	return l
 }
